@@ -91,9 +91,15 @@ func (i *interpreter) lazyInit(pkg *ssa.Package) {
 		func() {
 			defer func() {
 				if p := recover(); p != nil {
-					if _, ok := p.(unsupportedErr); ok && !i.inModule(pkg) {
+					if !i.inModule(pkg) {
+						switch p.(type) {
+						case abortPath, budgetErr, assertStop:
+							panic(p)
+						}
 						// library initialiser reached something we do not
 						// model: leave the remaining globals zero
+						i.unwinding = false
+						i.x.initIncomplete = append(i.x.initIncomplete, pkg.Pkg.Path())
 						return
 					}
 					panic(p)
@@ -111,6 +117,16 @@ var skipInitPkgs = map[string]bool{
 	"internal/reflectlite": true, "time": true, "fmt": true, "log": true,
 }
 
+// library packages whose user-written init functions are not executed
+// (registration, environment probing); their package-level variable
+// initialisers still run.
+var skipUserInitPrefixes = []string{
+	"go.opentelemetry.io/otel", "google.golang.org/", "github.com/docker/", "net", "crypto", "os", "runtime",
+	"github.com/prometheus/", "github.com/spf13/", "golang.org/x/net", "golang.org/x/sys", "github.com/Masterminds/",
+	"github.com/gogo/", "github.com/golang/", "internal/", "syscall", "log", "expvar", "mime", "compress", "encoding/gob",
+	"go.uber.org/zap", "github.com/go-logr", "github.com/sirupsen",
+}
+
 // skipCall reports calls that the lazy-initialisation scheme elides.
 func (i *interpreter) skipCall(caller *frame, fn *ssa.Function) bool {
 	if caller == nil || caller.fn.Synthetic != "package initializer" {
@@ -120,7 +136,12 @@ func (i *interpreter) skipCall(caller *frame, fn *ssa.Function) bool {
 		return true // dependencies are initialised on first touch
 	}
 	if strings.HasPrefix(fn.Name(), "init#") && !i.inModule(fn.Pkg) {
-		return true
+		path := fn.Pkg.Pkg.Path()
+		for _, pre := range skipUserInitPrefixes {
+			if strings.HasPrefix(path, pre) {
+				return true
+			}
+		}
 	}
 	return false
 }
